@@ -11,7 +11,8 @@
 (*  order of (date, time), ties in the given order - or, where run indices *)
 (*  differ, by ascending numeric run index (the property admits both);     *)
 (*  features = intersection; time/frame continued by the offset to the     *)
-(*  first input.                                                           *)
+(*  first input (frames: the offset in seconds times the frame rate of the *)
+(*  input the frames come from - every input has a frame rate of its own). *)
 (***************************************************************************)
 EXTENDS Integers, Sequences, FiniteSets, TLC, Json
 
